@@ -77,15 +77,15 @@ UB_KINDS_FATAL = ("member access within null", "member call on null", "load of n
 class Driver:
     """One gdstk_driver subprocess; restarted transparently after a crash."""
 
-    def __init__(self, build_dir, tmpdir, watchdog=20, recycle=1500):
-        self.exe = os.path.join(build_dir, "gdstk_driver")
+    def __init__(self, build_dir, tmpdir, watchdog=20, recycle=1500, exe_name="gdstk_driver"):
+        self.exe = os.path.join(build_dir, exe_name)
         self.tmpdir = tmpdir
         self.watchdog = watchdog
         self.recycle = recycle
         self.proc = None
         self.ncalls = 0
         self.syncno = 0
-        self.errpath = os.path.join(tmpdir, "driver.stderr")
+        self.errpath = os.path.join(tmpdir, "%s.stderr" % exe_name)
         self.errpos = 0
         self.last_stderr = ""
         self.ubsan_sites = {}
